@@ -558,30 +558,34 @@ func zzH18_decode_array() {
 	zzDecodeCheck(s, false)
 }
 
-// zzH18_decode_object: documents of exactly 6 bytes that start with '{' (the
-// shortest non-empty object, {"":1}, has 6 bytes). Quick: the second byte is
-// pinned to '"' as well; thorough: only the first byte is pinned.
+// zzH18_decode_object: documents that start with `{"` (the shortest non-empty
+// object, {"":1}, has 6 bytes). Quick: exactly 6 bytes; thorough: 6 or 7 bytes
+// (7: one-byte key or a two-byte value such as [] or 10).
 //
 //verif:unwind 64
 func zzH18_decode_object() {
-	s := zzString("s", 6)
+	n := 6 + zzChoice("seven", zzParam("olens", 1, 2))
+	s := zzString("s", n)
 	zzAssume(s[0] == '{')
-	if zzParam("opinned", 2, 1) == 2 {
-		zzAssume(s[1] == '"')
-	}
+	zzAssume(s[1] == '"')
 	zzDecodeCheck(s, false)
 }
 
 // zzH18_decode_number: documents over the number alphabet (digits symbolic):
 // long number tokens incl. three-digit exponents (range limit of float64).
-// Quick: exactly 5 bytes over [0-9.e-]; thorough: 5..6 bytes over [0-9.eE+-].
+// Quick: exactly 5 bytes over [0-9.e-]; thorough: 5 bytes over [0-9.eE+-] and
+// 6 bytes over [0-9.e-].
 //
 //verif:unwind 64
 func zzH18_decode_number() {
-	full := zzParam("nfull", 0, 1) == 1
+	full := false
 	n := 5
-	if full {
-		n += zzChoice("six", 2)
+	if zzParam("nthorough", 0, 1) == 1 {
+		if zzChoice("six", 2) == 1 {
+			n = 6
+		} else {
+			full = true
+		}
 	}
 	s := zzString("s", n)
 	for i := 0; i < n; i++ {
